@@ -58,6 +58,7 @@ checked at every primitive, so that an ill-typed use is a translator failure rat
 """
 import ast, os, re, sys
 sys.path.insert(0, os.path.dirname(os.path.abspath(__file__)))
+import patconst
 from gallina import lit, lits, toks
 from gen_tables import Fail, write_if_changed
 
@@ -412,6 +413,8 @@ class T:
                 return self.cres(n, env, k)
             if f.id == 'str' and len(n.args) == 1:
                 return self.val(n.args[0], env, lambda a: k(a if a.ty == TEXT else App('show', [self.want(a, CAT, 'str()')], TEXT)))
+            if f.id == 'bool' and len(n.args) == 1 and not isinstance(n.args[0], ast.Starred):
+                return self.val(n.args[0], env, lambda a: k(self.want(a, BOOL, 'bool()')))       # bool(b) of a truth value is b
             if f.id == 'set' and len(n.args) == 1:
                 a = n.args[0]
                 if isinstance(a, ast.Call) and isinstance(a.func, ast.Attribute) and a.func.attr == 'items' and not a.args and not a.keywords:
@@ -521,10 +524,11 @@ class T:
             if tgt.startswith('__'):
                 raise Fail(f'local name {tgt}')
             if isinstance(v, ast.Call) and isinstance(v.func, ast.Name) and v.func.id == 'Unification' and 'Unification' not in env:
-                if not (len(v.args) == 2 and not v.keywords and all(cstr(a) is not None for a in v.args)):
-                    raise Fail('Unification(...) with non-literal patterns')
+                pats = patconst.unification_patterns(v, self.mod, [k for k in env if not k.startswith('__')])
+                if pats is None:
+                    raise Fail('Unification(...) whose patterns are not compile-time constants')
                 env2 = dict(env)
-                env2[tgt] = Matcher(self.pattern(v.args[0].value), self.pattern(v.args[1].value))
+                env2[tgt] = Matcher(self.pattern(pats[0]), self.pattern(pats[1]))
                 return self.stmts(rest, env2, ctx)
 
             def bound(a):
@@ -717,7 +721,12 @@ class T:
             raise Fail('apply_binary_rules(x, y, seen_rules=None) not found')
         W = 'apply_binary_rules'
 
-        def component(node, var):
+        def component(node, var, env=None):
+            if isinstance(node, ast.Name) and env is not None and node.id in env:
+                v = env[node.id]       # a local bound to x / y with some features erased
+                if v[0] == 'comp' and v[1] == var:
+                    return v[2]
+                raise Fail(f'{W}: unsupported key component')
             if isinstance(node, ast.Name) and node.id == var:
                 return ()
             if (isinstance(node, ast.Call) and isinstance(node.func, ast.Attribute) and node.func.attr == 'clear_features' and not node.keywords
@@ -730,7 +739,7 @@ class T:
             if len(args) == 1 and isinstance(args[0], ast.Starred):
                 v = value(args[0].value, env)
             elif len(args) == 2 and not any(isinstance(x, ast.Starred) for x in args):
-                v = ('key', component(args[0], 'x'), component(args[1], 'y'))
+                v = ('key', component(args[0], 'x', env), component(args[1], 'y', env))
             else:
                 raise Fail(f'{W}: a combinator is not applied to one pair')
             if v[0] != 'key':
@@ -756,9 +765,15 @@ class T:
                     raise Fail(f'{W}: the generator {n.id} is consumed twice')
                 return v
             if isinstance(n, ast.Tuple) and len(n.elts) == 2:
-                return ('key', component(n.elts[0], 'x'), component(n.elts[1], 'y'))
+                return ('key', component(n.elts[0], 'x', env), component(n.elts[1], 'y', env))
             if (isinstance(n, ast.List) and not n.elts) or (isinstance(n, ast.Call) and isinstance(n.func, ast.Name) and n.func.id == 'list' and not n.args and not n.keywords):
                 return ('list', None)
+            if (isinstance(n, ast.Call) and isinstance(n.func, ast.Attribute) and n.func.attr == 'clear_features' and isinstance(n.func.value, ast.Name)
+                    and n.func.value.id in ('x', 'y') and n.func.value.id not in env):
+                return ('comp', n.func.value.id, component(n, n.func.value.id))       # one side of a key, bound to a local
+            if (isinstance(n, ast.Attribute) and n.attr == 'append' and isinstance(n.value, ast.Name) and env.get(n.value.id) == ('list', None)
+                    and sum(1 for m in ast.walk(fn) if isinstance(m, ast.Name) and m.id == n.value.id and isinstance(m.ctx, (ast.Store, ast.Del))) == 1):
+                return ('appender', n.value.id)       # L.append of a list that is bound once in the whole function
             if isinstance(n, (ast.ListComp, ast.GeneratorExp)):
                 gs = n.generators
                 lazy = isinstance(n, ast.GeneratorExp)
@@ -824,6 +839,10 @@ class T:
             key = comb_call(body[0].value, c, e2)
 
             def append_to(s):
+                if (isinstance(s, ast.Expr) and isinstance(s.value, ast.Call) and isinstance(s.value.func, ast.Name) and env.get(s.value.func.id, ('',))[0] == 'appender'
+                        and len(s.value.args) == 1 and not s.value.keywords and isinstance(s.value.args[0], ast.Name) and s.value.args[0].id == r
+                        and s.value.func.id not in (c, r)):
+                    return env[s.value.func.id][1]
                 if (isinstance(s, ast.Expr) and isinstance(s.value, ast.Call) and isinstance(s.value.func, ast.Attribute) and s.value.func.attr == 'append'
                         and isinstance(s.value.func.value, ast.Name) and len(s.value.args) == 1 and not s.value.keywords
                         and isinstance(s.value.args[0], ast.Name) and s.value.args[0].id == r):
@@ -884,6 +903,9 @@ class T:
                 return env[n.id]
             if (isinstance(n, ast.List) and not n.elts) or (isinstance(n, ast.Call) and isinstance(n.func, ast.Name) and n.func.id == 'list' and not n.args and not n.keywords):
                 return ('list', None)
+            if (isinstance(n, ast.Attribute) and n.attr == 'append' and isinstance(n.value, ast.Name) and env.get(n.value.id) == ('list', None)
+                    and sum(1 for m in ast.walk(fn) if isinstance(m, ast.Name) and m.id == n.value.id and isinstance(m.ctx, (ast.Store, ast.Del))) == 1):
+                return ('appender', n.value.id)       # L.append of a list that is bound once in the whole function
             if isinstance(n, ast.ListComp) and len(n.generators) == 1:
                 g = n.generators[0]
                 if not g.ifs and not g.is_async and isinstance(g.target, ast.Name) and ast.dump(g.iter) == want_iter and not ({'x', 'unary_rules'} & set(env)):
@@ -910,16 +932,36 @@ class T:
                 filled.append(L)
                 return self.val(node, e, lambda v: self.leaf(v, 'unary'))
             self.nodes = 0
-            body = self.stmts(st.body, benv(st.target.id), Ctx(ret=ret, fall=fall, append=append))
+            body_ast = st.body
+            aliases = {k_: v_[1] for k_, v_ in env.items() if v_[0] == 'appender'}
+            if aliases:
+                # A(e) with A = L.append taken before the loop is L.append(e); the alias must not be rebound in the loop
+                if any(isinstance(m, ast.Name) and m.id in aliases and isinstance(m.ctx, (ast.Store, ast.Del)) for s_ in st.body for m in ast.walk(s_)) or st.target.id in aliases:
+                    raise Fail(f'{W}: a bound append is rebound in the loop')
+
+                class Unalias(ast.NodeTransformer):
+                    def visit_Call(self, node):
+                        self.generic_visit(node)
+                        if isinstance(node.func, ast.Name) and node.func.id in aliases:
+                            node.func = ast.Attribute(value=ast.Name(id=aliases[node.func.id], ctx=ast.Load()), attr='append', ctx=ast.Load())
+                        return node
+                import copy
+                body_ast = [ast.fix_missing_locations(Unalias().visit(copy.deepcopy(s_))) for s_ in st.body]
+            body = self.stmts(body_ast, benv(st.target.id), Ctx(ret=ret, fall=fall, append=append))
             if len(set(filled)) != 1:
                 raise Fail(f'{W}: the loop fills more than one list')
             env[filled[0]] = ('list', ('map', body))
 
+        fn = self.unlazy(fn, W)
         tree = self.wrapper(fn, atom, value, loop)
         if not (tree[0] == 'if' and tree[1] == 'in' and tree[3] == ('ret', ('list', None)) and tree[2][0] == 'ret'
                 and tree[2][1][1] is not None and tree[2][1][1][0] == 'map'):
             raise Fail(f'{W}: the function is not `one result per entry of unary_rules[x] if x is a key, else []`')
         return tree[2][1][1][1]
+
+    @staticmethod
+    def unlazy(fn, W):
+        return patconst.unlazy(fn)
 
     # ---- whole module -------------------------------------------------------------------------------
     def combinator_names(self):
